@@ -35,4 +35,18 @@ theorem f6_truncation :
     syncCapPre (2 ^ 32) = some 0 ∧ syncCapPre (2 ^ 32 + 3) = some 4 := by
   refine ⟨by decide +kernel, by decide +kernel⟩
 
+/-! ### F16: `SyncRing.Init` on a USED ring keeps the old head/tail counters -/
+
+/-- `Init` as coded before the repair: new `cap`, `mask`, `values` (slot i holds i), but
+`head`/`tail` are not touched. -/
+def reinitPreFix (r : SyncRing) (cap : Int) : Option SyncRing :=
+  (SyncRing.init? cap).map fun f => { f with head := r.head, tail := r.tail }
+
+/-- Witness `NewSync(3); Push(2); Init(5)`: the re-initialised ring reports `Len() = 1`,
+`Pop` fails although `IsEmpty()` is false, i.e. it is not a bounded FIFO of any content. -/
+example :
+    ((SyncRing.init? 3).bind fun r => (r.push 2).bind fun (r1, _) =>
+      (reinitPreFix r1 5).map fun r2 => (r2.len, r2.isEmpty, r2.pop.map (·.2.2))) =
+      some (1, false, some false) := by decide +kernel
+
 end Golib.C10.Findings
